@@ -420,6 +420,7 @@ func (g *VerifC05Gate) GetType() string                 { return g.Inner.GetType
 // VerifC05Backend is a real session database over a gated real store
 type VerifC05Backend struct {
 	DB      SessionDatabase
+	Nodes   []SessionDatabase // several nodes sharing one store (each with its own in-process state); nil: one node
 	Gate    *VerifC05Gate
 	Advance func(d time.Duration) // clock control (redis back-end only)
 	Close   func()
@@ -482,6 +483,31 @@ func VerifC05RedisBackend(x *VerifC05Exec, watch func(string) bool) (*VerifC05Ba
 			sort.Strings(r)
 			return r
 		}}, nil
+}
+
+// DBFor returns the session database of the node that serves thread i
+func (b *VerifC05Backend) DBFor(i int) SessionDatabase {
+	if len(b.Nodes) == 0 {
+		return b.DB
+	}
+	return b.Nodes[i%len(b.Nodes)]
+}
+
+// VerifC05RedisMultiNode: n nodes (n redis session databases as their constructor builds them, each with its own
+// in-process state) sharing one in-process miniredis through one gate
+func VerifC05RedisMultiNode(x *VerifC05Exec, watch func(string) bool, n int) (*VerifC05Backend, error) {
+	b, err := VerifC05RedisBackend(x, watch)
+	if err != nil {
+		return nil, err
+	}
+	for i := 0; i < n; i++ {
+		dbi := NewRedisSessionDatabase(vc05Mini.c, "").(redisSessionDatabase)
+		dbi.underlying = cache.New[string](b.Gate)
+		dbi.client = nil
+		b.Nodes = append(b.Nodes, dbi)
+	}
+	b.DB = b.Nodes[0]
+	return b, nil
 }
 
 // ---------------------------------------------------------------------------------------------------------
@@ -583,7 +609,7 @@ type VerifC05Scn struct {
 	Op      string         `json:"op"`
 	Name    string         `json:"scn"`
 	Level   string         `json:"level"`   // "storage": consumers replicated on the SessionStore API; "iam": the real handlers
-	Backend string         `json:"backend"` // mem | redis
+	Backend string         `json:"backend"` // mem | redis | redis-multinode (one node per thread, one shared redis)
 	Strict  bool           `json:"strict"`
 	TTL     map[string]int `json:"ttl,omitempty"` // seconds per kind; absent: the constants of the source (iam level)
 	Init    []VerifC05Init `json:"init"`
@@ -618,6 +644,11 @@ func (scn *VerifC05Scn) setup(level VerifC05Level) VerifC05Setup {
 		if scn.Backend == "redis" {
 			var err error
 			if b, err = VerifC05RedisBackend(x, w); err != nil {
+				panic(err)
+			}
+		} else if scn.Backend == "redis-multinode" {
+			var err error
+			if b, err = VerifC05RedisMultiNode(x, w, len(scn.Threads)); err != nil {
 				panic(err)
 			}
 		} else {
